@@ -131,7 +131,7 @@ func CheckSchema(seq []exact.Member, bits bool) (class, detail string) {
 	return CheckSchemaAt(seq, bits, 0)
 }
 
-// CheckSchemaAt writes the member list in one of four places: (0) the type statement of a
+// CheckSchemaAt writes the member list in one of five places ((4) the second of two same-kind members of a union): (0) the type statement of a
 // leaf, (1) a typedef the leaf uses through a second typedef, (2) the second member of a
 // union, (3) a type statement that refers to a typedef of the same kind which has members of
 // its own (goyang reads such a list as the type's member list; re-listing as a YANG 1.1
@@ -148,6 +148,15 @@ func CheckSchemaAt(seq []exact.Member, bits bool, place int) (class, detail stri
 		b.WriteString("module m { namespace \"urn:m\"; prefix m; typedef t2 { type t1; } leaf l { type t2; } typedef t1 { type " + kind + " {")
 	case 2:
 		b.WriteString("module m { namespace \"urn:m\"; prefix m; leaf l { type union { type string; type " + kind + " {")
+		tail = " } } } }"
+	case 4:
+		// the second of two members of the same kind in one union: a type of its own, with its
+		// own faults, whatever the first one is like
+		first := "enum zzp; enum zzq;"
+		if bits {
+			first = "bit zzp; bit zzq;"
+		}
+		b.WriteString("module m { namespace \"urn:m\"; prefix m; leaf l { type union { type " + kind + " { " + first + " } type " + kind + " {")
 		tail = " } } } }"
 	case 3:
 		own := "enum zz0; enum zz1 { value 5; } enum zz2;"
@@ -195,7 +204,7 @@ func CheckSchemaAt(seq []exact.Member, bits bool, place int) (class, detail stri
 		return "schema-rejects-valid", fmt.Sprintf("[%s]: %v", seqString(seq), errs[0])
 	}
 	t := yang.ToEntry(ms.Modules["m"]).Dir["l"].Type
-	if place == 2 {
+	if place == 2 || place == 4 {
 		if len(t.Type) != 2 {
 			return "schema-no-type", seqString(seq)
 		}
@@ -270,7 +279,7 @@ func Enum(j *job.Job, s *job.Sink) {
 			}
 			if idx%int64(schemaEvery) == 0 && !hasEmpty {
 				s.Count("schema_cases", 1)
-				place := int(idx/int64(schemaEvery)) % 4
+				place := int(idx/int64(schemaEvery)) % 5
 				s.Count(fmt.Sprintf("schema_cases_place_%d", place), 1)
 				if c, d := CheckSchemaAt(seq, bits, place); c != "" {
 					s.Violation(idx, j.CaseID(idx), "C14.schema", c, d, map[string]any{"sequence": seqString(seq), "bits": bits, "place": place}, nil)
